@@ -89,7 +89,8 @@ func c20Scenario(c *Ctx, name string, oneZone bool, T int, payloadLen int, prolo
 	cfg.Servers[0].CompressMinLength = "1kb" // explicit: an in-place server update does not re-apply the default (see C16)
 	cfg2 := *cfg
 	cfg2.Compresses = []config.CompressConfig{{Name: "cp", Levels: map[string]uint{"gzip": 1, "br": 1}}}
-	cfg2.Locations = []config.LocationConfig{{Name: "loc", Upstream: "up", RespHeaders: []string{"X-Added:1"}}}
+	cfg.Locations[0].Hosts = []string{"a.com", "b.com"} // (locations with a host list: matching looks at per-location state built from it)
+	cfg2.Locations = []config.LocationConfig{{Name: "loc", Upstream: "up", Hosts: []string{"b.com", "a.com"}, RespHeaders: []string{"X-Added:1"}}}
 	payload := c20Payload(payloadLen)
 	return Sched{
 		Name:   name,
